@@ -77,3 +77,168 @@ def run(ck, facts, tier):
                                  sample="Ok(self %s other)" % rel)
                 except Unsupported as e:
                     ck.fail(r4, key, "rule could not be established (%s)" % e, where)
+
+
+# ---------------------------------------------------------------- thin delegating wrappers
+def _param_value(name, ty):
+    base = ty.replace("&", "").strip()
+    if base in ("i8", "i16", "i32", "i64", "u8", "u32", "u64", "usize", "f64"):
+        return Poly.atom(name)
+    return Sym("param", name)
+
+
+def delegates(ck, rid, facts, wrapper, core_name, key, receiver="self", effect=False):
+    """`wrapper(self, p1..pn)` is `core_name(receiver, p1..pn)`: one call of the core method on every path, the wrapper's own parameters handed over in their
+    declared order and unchanged, and (unless the wrapper is called for its effect) the core's result returned as is (Ok-wrapped or `?`-propagated at most)."""
+    r = facts.fn(wrapper)
+    if r is None:
+        ck.fail(rid, key, "wrapper not found: " + wrapper)
+        return
+    where = "%s:%d" % (r["file"], r["line"])
+    calls = []
+
+    def core(ev, vals, e):
+        calls.append([vkey(v) for v in vals])
+        return Sym("core", core_name, *[vkey(v) for v in vals])
+    names = [p.get("name") for p in r["params"]]
+    args = []
+    for n, t in zip(names, r["sig"]):
+        if n == "self":
+            args.append(Rec("py-self", {"inner": Sym("field", "inner")}) if receiver == "inner" else Sym("param", "self"))
+        else:
+            args.append(_param_value(n, t))
+    try:
+        got = cel.strip_early(cel.Ev(facts, hooks={"::" + core_name: core}).apply_fn(wrapper, args, 0))
+        recv = vkey(Sym("field", "inner")) if receiver == "inner" else vkey(Sym("param", "self"))
+        want_args = [recv] + [vkey(a) for a in args[1:]]
+        ok = len(calls) == 1 and calls[0] == want_args
+        why = "the wrapper does not call %s exactly once with (self%s, %s): calls %s" % (core_name, ".inner" if receiver == "inner" else "", ", ".join(names[1:]), repr(calls)[:300])
+        if ok and not effect:
+            want = Sym("core", core_name, *want_args)
+            ok = vkey(got) in (vkey(want), vkey(Sym("ctor", "Ok", want)))
+            why = "the wrapper does not return the core result unchanged: %s" % cel.vfmt(got)[:300]
+        ck.check(rid, key, ok, why, where, sample="%s(self%s, %s)" % (core_name, ".inner" if receiver == "inner" else "", ", ".join(names[1:])))
+    except Unsupported as e:
+        ck.fail(rid, key, "rule could not be established (%s)" % e, where)
+
+
+def run_calendar_wrappers(ck, facts):
+    if ck.rules.get("R05.6", {}).get("obligations"):
+        return            # already evaluated in this run (included by more than one rule module)
+    r6 = ck.rule("R05.6", "Python-facing calendar methods are the core methods: <name>_py(self, args..) = <name>(self, args..) for every date-arithmetic method of Cal, UnionCal "
+                          "and NamedCal — one call, own arguments in order and unchanged, result returned as is", floor=30)
+    for ty in ("Cal", "UnionCal", "NamedCal"):
+        for m in ("is_bus_day", "is_non_bus_day", "is_settlement", "add_days", "add_bus_days", "add_months", "roll", "lag", "bus_date_range", "cal_date_range"):
+            delegates(ck, r6, facts, "calendars::calendar_py::<impl calendars::calendar::%s>::%s_py" % (ty, m), m, "%s::%s_py" % (ty, m))
+
+
+def run_curve_wrappers(ck, facts):
+    if ck.rules.get("R12.4", {}).get("obligations"):
+        return            # already evaluated in this run (included by more than one rule module)
+    r4 = ck.rule("R12.4", "the Python-facing Curve is the core curve: curve[date] = inner.interpolated_value(date), index_value(date) = inner.index_value(date), "
+                          "set_ad_order(ad) = one inner.set_ad_order(ad) — no extra branches, no second call", floor=3)
+    delegates(ck, r4, facts, "curves::curve_py::Curve::__getitem__", "interpolated_value", "Curve::__getitem__", receiver="inner")
+    delegates(ck, r4, facts, "curves::curve_py::Curve::index_value_py", "index_value", "Curve::index_value", receiver="inner")
+    delegates(ck, r4, facts, "curves::curve_py::Curve::set_ad_order", "set_ad_order", "Curve::set_ad_order", receiver="inner", effect=True)
+
+
+def run_fx_wrappers(ck, facts):
+    if ck.rules.get("R10.7", {}).get("obligations"):
+        return            # already evaluated in this run (included by more than one rule module)
+    r7 = ck.rule("R10.7", "the Python-facing FXRates methods are the core methods: rate, update, set_ad_order, get_ccy_index delegate once with their own arguments", floor=4)
+    P_ = "fx::rates_py::<impl fx::rates::FXRates>::"
+    delegates(ck, r7, facts, P_ + "rate_py", "rate", "FXRates::rate_py")
+    delegates(ck, r7, facts, P_ + "update_py", "update", "FXRates::update_py")
+    delegates(ck, r7, facts, P_ + "set_ad_order_py", "set_ad_order", "FXRates::set_ad_order_py", effect=True)
+    delegates(ck, r7, facts, P_ + "get_ccy_index_py", "get_ccy_index", "FXRates::get_ccy_index_py")
+
+
+def run_spline_wrappers(ck, facts):
+    """R15.6: the spline's vectorised evaluator and its Python-facing methods hand abscissa, basis index and derivative order to the scalar kernels unchanged."""
+    if ck.rules.get("R15.6", {}).get("obligations"):
+        return
+    r6 = ck.rule("R15.6", "PPSpline::bspldnev(x, i, m) = [bspldnev_single_f64(x_j, i, k, t, m, None) for every x_j] (no filtering); the Python-facing methods of the three "
+                          "spline classes: ppev*/ppdnev* evaluate order 0 resp. the given m, a float abscissa is promoted to the method's own number kind with no variables, "
+                          "the matching kind is passed through, any other kind gives Err; bsplev/bspldnev/csolve delegate with their own arguments in order", floor=70)
+    SP = "splines::spline::"
+    D1, D2 = "dual::dual::Dual", "dual::dual::Dual2"
+    # --- the vectorised evaluator of the core type
+    fn = SP + "PPSpline::<T>::bspldnev"
+    r = facts.fn(fn)
+    where = "%s:%d" % (r["file"], r["line"]) if r else None
+    try:
+        me = Rec("splines::spline::PPSpline", {"k": Poly.atom("k"), "t": Sym("field", "t"), "n": Poly.atom("n"), "c": Sym("field", "c")})
+        X = Sym("param", "x")
+        xs = cel.Coll(cel.Seq(X, lambda idx: Poly.atom(("call", "index", (vkey(X), idx.key())))))
+        hk = {SP + "bspldnev_single_f64": lambda ev, vals, e: Sym("D", *[vkey(v) for v in vals]), "PPSpline::<T>::k": lambda ev, vals, e: Poly.atom("k"),
+              "PPSpline::<T>::t": lambda ev, vals, e: Sym("field", "t")}
+        got = cel.Ev(facts, hooks=hk).apply_fn(fn, [me, xs, Poly.atom("i"), Poly.atom("m")], 0)
+        want = cel.Coll(cel.Seq(X, lambda idx: Sym("D", Poly.atom(("call", "index", (vkey(X), idx.key()))).key(), Poly.atom("i").key(), Poly.atom("k").key(), vkey(Sym("field", "t")),
+                                                    Poly.atom("m").key(), vkey(Sym("ctor", "None")))))
+        ck.check(r6, "PPSpline::bspldnev", vkey(got) == vkey(want), "the vectorised basis evaluator is not the scalar kernel mapped over every abscissa: %s" % cel.vfmt(got)[:300], where,
+                 sample="x.iter().map(|v| bspldnev_single_f64(v, i, k, t, m, None)).collect()")
+    except Unsupported as e:
+        ck.fail(r6, "PPSpline::bspldnev", "rule could not be established (%s)" % e, where)
+    # --- Python-facing classes
+    core = lambda name: (lambda ev, vals, e: Sym("core", name, *[vkey(v) for v in vals]))
+    hooks = {"::" + n: core(n) for n in ("ppdnev_single", "ppdnev_single_dual", "ppdnev_single_dual2", "bspldnev", "csolve")}
+    INNER = Sym("field", "inner")
+    me = Rec("py-self", {"inner": INNER})
+    const_num = {D1: lambda f: Rec(D1, {"real": f, "dual": Poly({}, 1), "vars": Sym("novars")}),
+                 D2: lambda f: Rec(D2, {"real": f, "dual": Poly({}, 1), "dual2": Poly({}, 2), "vars": Sym("novars")})}
+    for cls in ("PPSplineF64", "PPSplineDual", "PPSplineDual2"):
+        P_ = "splines::spline_py::<impl splines::spline::%s>::" % cls
+        for meth, core_name, own in (("ppev_single", "ppdnev_single", None), ("ppdnev_single", "ppdnev_single", None), ("ppev_single_dual", "ppdnev_single_dual", D1),
+                                     ("ppdnev_single_dual", "ppdnev_single_dual", D1), ("ppev_single_dual2", "ppdnev_single_dual2", D2), ("ppdnev_single_dual2", "ppdnev_single_dual2", D2)):
+            r = facts.fn(P_ + meth)
+            where = "%s:%d" % (r["file"], r["line"]) if r else None
+            has_m = meth.startswith("ppdnev")
+            mval = Poly.atom("m") if has_m else Poly.const(0)
+            for kind, adt in (("F64", None), ("Dual", D1), ("Dual2", D2)):
+                key = "%s::%s[%s]" % (cls, meth, kind)
+                if r is None:
+                    ck.fail(r6, key, "wrapper not found")
+                    continue
+                x = Poly.atom("f") if kind == "F64" else cel.operand("d", adt)
+                try:
+                    got = cel.strip_early(cel.Ev(facts, hooks=hooks).apply_fn(P_ + meth, [me, Sym("ctor", kind, x)] + ([Poly.atom("m")] if has_m else []), 0))
+                    if kind == "F64":
+                        xx = x if own is None else const_num[own](x)
+                    elif adt == own:
+                        xx = x
+                    else:
+                        ck.check(r6, key, isinstance(got, Sym) and got.tag[:2] == ("ctor", "Err"), "an abscissa of kind %s is not refused with Err: %s" % (kind, cel.vfmt(got)[:200]), where, sample="Err(TypeError)")
+                        continue
+                    want = Sym("core", core_name, vkey(INNER), vkey(xx), mval.key())
+                    ck.check(r6, key, vkey(got) in (vkey(want), vkey(Sym("ctor", "Ok", want))), "%s(%s) is not inner.%s(x, %s): %s" % (meth, kind, core_name, "m" if has_m else "0", cel.vfmt(got)[:300]),
+                             where, sample="inner.%s(x, %s)" % (core_name, "m" if has_m else "0"))
+                except Unsupported as e:
+                    ck.fail(r6, key, "rule could not be established (%s)" % e, where)
+        # vector forms and plain delegations
+        for meth, has_m in (("ppev", False), ("ppdnev", True)):
+            r = facts.fn(P_ + meth)
+            key = "%s::%s" % (cls, meth)
+            where = "%s:%d" % (r["file"], r["line"]) if r else None
+            try:
+                X = Sym("param", "x")
+                el = lambda idx: Poly.atom(("call", "index", (vkey(X), idx.key())))
+                xs = cel.Coll(cel.Seq(X, el))
+                got = cel.strip_early(cel.Ev(facts, hooks=hooks).apply_fn(P_ + meth, [me, xs] + ([Poly.atom("m")] if has_m else []), 0))
+                mval = Poly.atom("m") if has_m else Poly.const(0)
+                want = Sym("ctor", "Ok", cel.Coll(cel.Seq(X, lambda idx: Sym("core", "ppdnev_single", vkey(INNER), el(idx).key(), mval.key()))))
+                ck.check(r6, key, vkey(got) in (vkey(want), vkey(Sym("ctor", "Ok", want))), "%s is not [inner.ppdnev_single(x_j, %s) for every x_j]: %s" % (meth, "m" if has_m else "0", cel.vfmt(got)[:300]), where,
+                         sample="x.iter().map(|v| inner.ppdnev_single(v, %s)).collect()" % ("m" if has_m else "0"))
+            except Unsupported as e:
+                ck.fail(r6, key, "rule could not be established (%s)" % e, where)
+        delegates(ck, r6, facts, P_ + "bspldnev", "bspldnev", "%s::bspldnev" % cls, receiver="inner")
+        delegates(ck, r6, facts, P_ + "csolve", "csolve", "%s::csolve" % cls, receiver="inner")
+        # bsplev(x, i) = inner.bspldnev(x, i, 0)
+        r = facts.fn(P_ + "bsplev")
+        key = "%s::bsplev" % cls
+        try:
+            got = cel.strip_early(cel.Ev(facts, hooks=hooks).apply_fn(P_ + "bsplev", [me, Sym("param", "x"), Poly.atom("i")], 0))
+            want = Sym("core", "bspldnev", vkey(INNER), vkey(Sym("param", "x")), Poly.atom("i").key(), Poly.const(0).key())
+            ck.check(r6, key, vkey(got) in (vkey(want), vkey(Sym("ctor", "Ok", want))), "bsplev(x, i) is not inner.bspldnev(x, i, 0): %s" % cel.vfmt(got)[:300],
+                     "%s:%d" % (r["file"], r["line"]) if r else None, sample="inner.bspldnev(x, i, 0)")
+        except Unsupported as e:
+            ck.fail(r6, key, "rule could not be established (%s)" % e)
